@@ -18,7 +18,8 @@ RULE = ('Hypothesis-generated file trees (<= 25 nodes, depth <= 4; names with bl
         'different extensions; a directory whose name has an extension) materialised in a fresh temporary '
         'directory, 1-4 rules (top-level, nested, missing or regular-file paths; two factories; extra args / '
         'kwargs; extension filters), nest_on_conflict and trim_extensions given at construction, per call or '
-        'both, 1-3 population calls on the same map (empty or pre-populated), optional root override. Oracle: '
+        'both, 1-3 population calls on the same map (empty or pre-populated), optional root override; between two '
+        'calls a file may turn into a directory of the same name that holds files. Oracle: '
         'independent os.walk reference producing, per call, the list of (key, rule, file) productions; required '
         'keys present with handles built from (file path, *args, **kwargs), prefixes are sub-maps, nothing '
         'else reachable in any layer, conflict rules (all layers retrievable with nesting, replacement '
@@ -86,7 +87,9 @@ def strategy():
         'rules': st.lists(st.integers(0, 640 * 4 - 1).map(decode_rule), min_size=1, max_size=4),
         'calls': st.lists(st.integers(0, 8).map(decode_call), min_size=1, max_size=3),
         'ctor': st.integers(0, 3).map(lambda p: {'nest': bool(p % 2), 'trim': bool(p // 2)}),
-        'pre': st.booleans(), 'root_override': st.booleans()})
+        'pre': st.booleans(), 'root_override': st.booleans(),
+        # between two population calls a file may turn into a directory holding files (same name)
+        'morph': st.lists(st.integers(0, 11), min_size=2, max_size=2)})
 
 
 def viol(clause, **d):
@@ -210,9 +213,26 @@ def _run(case, tmp, facts):
         if expect_error:
             viol('rule_path_that_is_a_regular_file_was_not_rejected', call=ci)
         for key, c, ri, full in new_prods:
+            # a key that was a file in an earlier call and is a directory now: the sub-map replaces the handle(s)
+            parts = key.split('/')
+            for i in range(1, len(parts)):
+                stale = '/'.join(parts[:i])
+                if stale in productions and all(p[0] < ci for p in productions[stale]):
+                    del productions[stale]
+                    facts['file_became_directory'] += 1
             productions[key].append((c, ri, full))
         facts['calls'] += 1
         check(rmap, rules, productions, allowed_dirs, nest_modes, pre_handle, facts)
+        morph = (case.get('morph') or [1, 1])[min(ci, 1)]
+        if morph % 3 == 0 and files and ci + 1 < len(case['calls']):
+            f = files.pop(morph % len(files))
+            os.remove(f)
+            os.mkdir(f)
+            for inner in ('a.txt', 'b'):
+                with open(pt.join(f, inner), 'w') as fh:
+                    fh.write('x')
+                files.append(pt.join(f, inner))
+            facts['morphed_file_into_directory'] += 1
     return info(facts, case)
 
 
